@@ -36,6 +36,7 @@ type Budget struct {
 	Lag     int `json:"lag"`     // max undelivered events while a non-deliver step runs
 	Faults  int `json:"faults"`  // max injected API faults per execution
 	Crashes int `json:"crashes"` // max crashes/restarts per execution
+	Preempt int `json:"preempt"` // max preemptions (a pending event delivered in the middle of a sync) per execution
 }
 
 // Base is the part of a world shared by all controller worlds.
@@ -69,6 +70,14 @@ type Base struct {
 	ClockNeedsQuiet bool
 	// Horizon bounds simulated time (0 = unbounded): the clock never advances beyond Epoch+Horizon.
 	Horizon time.Duration
+	// Preemption points: the world calls Point() at synchronisation operations inside a sync
+	// (store counter reads/CAS, see DESIGN.md 2.1). PreemptAt selects the point at which one
+	// pending event of PreemptResource is delivered before the sync continues.
+	PreemptsUsed    int
+	PreemptAt       int
+	PreemptResource string
+	pointCount      int
+	pendingAtStart  int
 	// FaultLog lists the injected faults of this history as features ("fault:update/jobs/status=conflict").
 	FaultLog []string
 	// StaticFeatures are scenario-level features (e.g. "foreign-pod").
@@ -253,6 +262,9 @@ func (b *Base) Features() []string {
 	if b.CrashesUsed > 0 {
 		f = append(f, "crash")
 	}
+	if b.PreemptsUsed > 0 {
+		f = append(f, "preempt")
+	}
 	f = append(f, b.StaticFeatures...)
 	sort.Strings(f)
 	return f
@@ -315,6 +327,17 @@ func (b *Base) applyWork(action string) {
 			sort.Strings(b.FaultLog)
 		}
 	}
+	b.PreemptAt = 0
+	if i := strings.LastIndexByte(body, '@'); i >= 0 {
+		n, err := strconv.Atoi(body[i+1:])
+		if err != nil {
+			panic("bad preemption suffix in " + action)
+		}
+		b.PreemptAt = n
+		b.PreemptsUsed++
+		body = body[:i]
+	}
+	b.pointCount = 0
 	parts := strings.SplitN(body, ":", 2)
 	qn, key := parts[0], parts[1]
 	q := b.Queues[qn]
@@ -329,6 +352,10 @@ func (b *Base) applyWork(action string) {
 			b.LastStale = append(b.LastStale, "stale:"+inf.Resource)
 			b.StaleSeen[inf.Resource] = true
 		}
+	}
+	b.pendingAtStart = 0
+	if inf := b.Ctx.Set.ByResource(b.PreemptResource); inf != nil {
+		b.pendingAtStart = inf.Pending()
 	}
 	b.API.BeginStep(faults)
 	applied := b.API.FaultsApplied
@@ -354,6 +381,16 @@ func (b *Base) applyWork(action string) {
 	}
 }
 
+// Point is a preemption point inside a work step.
+func (b *Base) Point() {
+	b.pointCount++
+	if b.PreemptAt > 0 && b.pointCount == b.PreemptAt {
+		if inf := b.Ctx.Set.ByResource(b.PreemptResource); inf != nil && inf.Pending() > 0 {
+			inf.Deliver()
+		}
+	}
+}
+
 // faultFeature turns a call id (verb/resource/name[/sub]#n) and a fault kind into a feature.
 func faultFeature(id, kind string) string {
 	if i := strings.IndexByte(id, '#'); i >= 0 {
@@ -372,10 +409,15 @@ func (b *Base) Calls() []sim.Call { return b.calls }
 
 // Variants returns the fault and crash variants of a just-applied work action.
 func (b *Base) Variants(action string) []string {
-	if !strings.HasPrefix(action, "work:") || strings.Contains(action, "!") {
+	if !strings.HasPrefix(action, "work:") || strings.Contains(action, "!") || strings.Contains(action, "@") {
 		return nil
 	}
 	var out []string
+	if b.PreemptsUsed < b.Budget.Preempt && b.pendingAtStart > 0 {
+		for i := 1; i <= b.pointCount; i++ {
+			out = append(out, fmt.Sprintf("%s@%d", action, i))
+		}
+	}
 	seen := map[string]bool{}
 	for _, c := range b.calls {
 		if seen[c.ID] {
@@ -410,7 +452,7 @@ type keyDump struct {
 	Caches  map[string]map[string]json.RawMessage `json:"caches"`
 	Pending map[string][]string                   `json:"pending"`
 	Queues  map[string]interface{}                `json:"queues"`
-	Budget  [2]int                                `json:"budget_used"`
+	Budget  [3]int                                `json:"budget_used"`
 	Stale   []string                              `json:"stale_seen"`
 	Faults  []string                              `json:"faults"`
 	Extra   interface{}                           `json:"extra,omitempty"`
@@ -440,7 +482,7 @@ func (b *Base) dump() keyDump {
 		Caches:  map[string]map[string]json.RawMessage{},
 		Pending: map[string][]string{},
 		Queues:  map[string]interface{}{},
-		Budget:  [2]int{b.FaultsUsed, b.CrashesUsed},
+		Budget:  [3]int{b.FaultsUsed, b.CrashesUsed, b.PreemptsUsed},
 	}
 	for r := range b.StaleSeen {
 		d.Stale = append(d.Stale, r)
@@ -539,6 +581,7 @@ type baseSnap struct {
 	hook     map[string]*sim.InformerSnapshot
 	queues   map[string]*sim.QueueSnapshot
 	faults   int
+	preempts int
 	faultLog []string
 	crashes  int
 	stale    map[string]bool
@@ -572,7 +615,7 @@ func (b *Base) Snapshot() interface{} {
 		clock: b.Now(), api: b.API.Snapshot(),
 		ctrl: map[string]*sim.InformerSnapshot{}, hook: map[string]*sim.InformerSnapshot{},
 		queues: map[string]*sim.QueueSnapshot{},
-		faults: b.FaultsUsed, faultLog: append([]string(nil), b.FaultLog...), crashes: b.CrashesUsed, stale: map[string]bool{}, restarts: b.Restarts,
+		faults: b.FaultsUsed, faultLog: append([]string(nil), b.FaultLog...), crashes: b.CrashesUsed, preempts: b.PreemptsUsed, stale: map[string]bool{}, restarts: b.Restarts,
 	}
 	for _, inf := range b.Ctx.Set.All() {
 		s.ctrl[inf.Resource] = inf.Snapshot()
@@ -613,6 +656,7 @@ func (b *Base) Restore(x interface{}) {
 	}
 	b.FaultsUsed, b.CrashesUsed, b.Restarts = s.faults, s.crashes, s.restarts
 	b.FaultLog = append([]string(nil), s.faultLog...)
+	b.PreemptsUsed = s.preempts
 	b.StaleSeen = map[string]bool{}
 	for k := range s.stale {
 		b.StaleSeen[k] = true
